@@ -41,6 +41,8 @@ struct Case {
     cert: &'static str,
     answer: Answer,
     hs: Handshake,
+    /// connect with a clone of the settings (as a pool or reconnect loop would)
+    cloned: bool,
 }
 
 #[derive(Default, Debug, Clone)]
@@ -196,11 +198,12 @@ fn err_kind(e: &LdapError) -> String {
 /// Ok(Some(rc of the bind after establishment)) / Ok(None) bind failed / Err(kind)
 fn attempt(c: &Case, port: u16) -> Result<Result<Option<u32>, String>, String> {
     let url = format!("{}://{}:{}", if c.ldaps { "ldaps" } else { "ldap" }, c.host, port);
-    let (starttls, no_verify) = (!c.ldaps, c.no_verify);
+    let (starttls, no_verify, cloned) = (!c.ldaps, c.no_verify, c.cloned);
     catch(move || {
         let rt = tokio::runtime::Builder::new_current_thread().enable_all().build().unwrap();
         rt.block_on(async {
             let settings = LdapConnSettings::new().set_starttls(starttls).set_no_tls_verify(no_verify).set_conn_timeout(Duration::from_millis(1500));
+            let settings = if cloned { settings.clone() } else { settings };
             match LdapConnAsync::with_settings(settings, &url).await {
                 Err(e) => Err(err_kind(&e)),
                 Ok((conn, mut ldap)) => {
@@ -344,7 +347,10 @@ pub fn run(tier: Tier) -> i32 {
                                     continue;
                                 }
                             }
-                            cases.push(Case { ldaps, host, no_verify, cert, answer, hs });
+                            cases.push(Case { ldaps, host, no_verify, cert, answer, hs, cloned: false });
+                            if tier == Tier::Thorough || (cert == "good" && host == "localhost") {
+                                cases.push(Case { ldaps, host, no_verify, cert, answer, hs, cloned: true });
+                            }
                         }
                     }
                 }
